@@ -1035,7 +1035,7 @@ fn execute_item_enforced(
         // Post-hoc write enforcement (runs whether exec succeeded or panicked)
         let check_result = catch_unwind(AssertUnwindSafe(|| {
             for op in &delta.ops_ref()[ops_before..] {
-                guard.check_op(op);
+                guard.check_op_in(store, op);
             }
         }));
 
